@@ -57,7 +57,7 @@ FgCommit == /\ Materialise /\ last' = Obs("fg", "fg_commit", 0, "ok")
 FgSearch == /\ last' = Obs("fg", "fg_search", 0, "ok")
             /\ UNCHANGED <<nframes, npend, penr, ptomb, enr, st, queue, wpc, wtask, since, stop, proc, everq, nputs>>
 
-FgDelete(f) == /\ f < nframes /\ st[f + 1] = "A" /\ f \notin ptomb
+FgDelete(f) == /\ f < nframes /\ st[f + 1] = "A"      \* (a second delete before the commit is accepted too)
                /\ ptomb' = ptomb \cup {f} /\ last' = Obs("fg", "fg_delete", f, "ok")
                /\ UNCHANGED <<nframes, npend, penr, enr, st, queue, wpc, wtask, since, stop, proc, everq, nputs>>
 
